@@ -303,15 +303,17 @@ impl WidthHeuristics {
         } else {
             1.0
         };
+        // A derived width never exceeds `max_width` (the defaults do, below 70).
+        let scale = |width: f32| ((width * max_width_ratio).round() as usize).min(max_width);
         WidthHeuristics {
-            fn_call_width: (60.0 * max_width_ratio).round() as usize,
-            attr_fn_like_width: (70.0 * max_width_ratio).round() as usize,
-            struct_lit_width: (18.0 * max_width_ratio).round() as usize,
-            struct_variant_width: (35.0 * max_width_ratio).round() as usize,
-            array_width: (60.0 * max_width_ratio).round() as usize,
-            chain_width: (60.0 * max_width_ratio).round() as usize,
-            single_line_if_else_max_width: (50.0 * max_width_ratio).round() as usize,
-            single_line_let_else_max_width: (50.0 * max_width_ratio).round() as usize,
+            fn_call_width: scale(60.0),
+            attr_fn_like_width: scale(70.0),
+            struct_lit_width: scale(18.0),
+            struct_variant_width: scale(35.0),
+            array_width: scale(60.0),
+            chain_width: scale(60.0),
+            single_line_if_else_max_width: scale(50.0),
+            single_line_let_else_max_width: scale(50.0),
         }
     }
 }
